@@ -418,16 +418,24 @@ int main(int argc, char** argv)
     int cur = intern(db, grid, isNew);
     for (int d = 0; d < walkDepth; d++)
     {
-      int ci = (int)(rng() % cat.arr.size());
-      const Value& c = cat.arr[ci];
-      if (!withinBounds(c, db)) continue;
-      if (skip.count({-(w + 1), d})) break;
-      snprintf(CUR, sizeof CUR, "{\"from\":%d,\"ci\":%d,\"walk\":%d,\"step\":%d,\"c\":%s,\"to\":0", cur, ci, w + 1, d, vj::dump(c).c_str());
-      db = apply(c, db);
-      int to = intern(db, grid, isNew);
-      logTrans(cur, c, to);
-      cur = to;
-      if (!expandable(project(db, grid))) break;
+      // progressing walk: entries that leave the state unchanged (invalid designators ...) are logged
+      // but up to 8 entries are tried until one changes the state
+      bool moved = false, stop = false;
+      for (int attempt = 0; attempt < 8 && !moved && !stop; attempt++)
+      {
+        int ci = (int)(rng() % cat.arr.size());
+        const Value& c = cat.arr[ci];
+        if (!withinBounds(c, db)) continue;
+        if (skip.count({-(w + 1), d * 8 + attempt})) { stop = true; break; }
+        snprintf(CUR, sizeof CUR, "{\"from\":%d,\"ci\":%d,\"walk\":%d,\"step\":%d,\"c\":%s,\"to\":0", cur, ci, w + 1, d * 8 + attempt, vj::dump(c).c_str());
+        db = apply(c, db);
+        int to = intern(db, grid, isNew);
+        logTrans(cur, c, to);
+        moved = (to != cur);
+        cur = to;
+        if (!expandable(project(db, grid))) stop = true;
+      }
+      if (stop) break;
     }
     delete db;
   }
